@@ -52,6 +52,21 @@ def programs(seed, n):
         cfg.pop("version", None)
         progs.append({"id": "c16-%d-%d" % (seed, i), "seed": seed * 1000 + i, "cfg": cfg, "strict": i % 3 != 2,
                       "steps": body, "damage": mode})
+    # many cold files in one warm-up batch: one blob per pack, 21 - 47 data packs (and as many snapshots as backups) are
+    # warmed up by one restore / repair-index / hot-cold repair (batches are split among worker tasks)
+    for k in range(2 if n <= 30 else max(4, n // 50)):
+        nblobs = rng.choice([21, 23, 27, 33, 41, 47])
+        toks = ["d%d" % (100 + j) for j in range(nblobs)]
+        files, pos = {}, 0
+        while pos < nblobs:
+            m = rng.randint(2, 6)
+            files["w%d" % pos] = toks[pos:pos + m]
+            pos += m
+        body = [{"cmd": "backup", "files": files}, {"cmd": "restore"}, {"cmd": "repair_index", "read_all": True}, {"cmd": "check"},
+                {"cmd": "hot_damage", "mode": ["all", "meta"][k % 2], "seed": seed * 100 + 90 + k}, {"cmd": "repair_hotcold"}, {"cmd": "check"},
+                {"cmd": "restore"}]
+        progs.append({"id": "c16-%d-w%d" % (seed, k), "seed": seed * 1000 + 900 + k, "cfg": {"chunk": 64, "pack": 100}, "strict": True,
+                      "steps": body, "damage": "wide"})
     return progs
 
 
